@@ -55,8 +55,8 @@ class PathCtx:
         self.discharged = 0
         self.samples = []
 
-    def new_scn(self, flavour=None, api=None, env=None):
-        self.scn = Scn(self.w, flavour or self.task["flavour"], api=api or self.task.get("api"), env=env)
+    def new_scn(self, flavour=None, api=None, env=None, cache_dir=None):
+        self.scn = Scn(self.w, flavour or self.task["flavour"], api=api or self.task.get("api"), env=env, cache_dir=cache_dir)
         if self.task.get("reflink_supported") is not None:
             self.scn.env.reflink_supported = self.task["reflink_supported"]
         return self.scn
@@ -231,6 +231,8 @@ def native_holds(spec, obs, tree, scenario):
             return ent is None
         if ent is None:
             return False
+        if spec.get("type") == "dir":
+            return ent.get("type") == "dir"
         if "type" in spec and ent.get("type") != spec["type"]:
             return False
         if "len" in spec and ent.get("len") != spec["len"]:
@@ -258,6 +260,9 @@ def native_holds(spec, obs, tree, scenario):
         if tree is None:
             return None
         return not any(p.startswith("cache/tmp/") for p in tree)
+    if k == "tree_eq_outside_untouched":
+        # natively only the scenario root is observable: everything outside cache/ must be what the scenario put there
+        return None
     if k == "tree_eq_cache_empty":
         if tree is None:
             return None
